@@ -20,7 +20,9 @@ CONSTANTS T,        \* number of sub-cube tasks
           P,        \* pool size
           F,        \* fills per task
           Serial,   \* TRUE: the plain for-loop, no pool
-          FaultSets \* the sets of task indices at which the callback may raise (one is chosen initially)
+          FaultSets,\* the sets of task indices at which the callback may raise (one is chosen initially)
+          Guarded,  \* TRUE: the cube wraps every task (the code since the F22 repair); FALSE: tasks go to the pool bare
+          Kinds     \* the classes of what the callback raises: "exception", "base" (not an Exception), "stop" (StopIteration)
 
 Tasks == 1..T
 Workers == 1..P
@@ -36,8 +38,16 @@ Cells == {Addr(t, f) : t \in Tasks, f \in 1..F}
 SerialRegions == [c \in Cells |-> Val(c[1], c[2])]
 Blank == [c \in Cells |-> 0]
 
-VARIABLES faults, claimed, cur, consulted, regions, writes, failed, finished, outcome, round
-vars == <<faults, claimed, cur, consulted, regions, writes, failed, finished, outcome, round>>
+\* What CPython 3.12's pool does with a task that raises depends on the class (multiprocessing/pool.py):
+\*   worker(): `try: result = (True, func(*args)) except Exception as e: result = (False, e)` - an ordinary Exception
+\*             ends the chunk (mapstar is one func call per chunk) and map() re-raises it once all chunks are in;
+\*   mapstar(): `list(map(*args))` - a StopIteration raised by the task ends list() quietly: the rest of the chunk is
+\*             dropped and nobody is told;
+\*   anything that is not an Exception escapes worker(): the thread dies, its chunk is never reported, map() waits forever.
+\* With Guarded = FALSE the model below is that raw pool (and the stand-in pool of harness/sched.py, which
+\* bin/selftest compares with the real ThreadPool); with Guarded = TRUE the class makes no difference.
+VARIABLES kind, faults, claimed, cur, consulted, regions, writes, failed, finished, outcome, round
+vars == <<kind, faults, claimed, cur, consulted, regions, writes, failed, finished, outcome, round>>
 
 Idle == [phase |-> "idle", chunk |-> 0, pos |-> 0, fills |-> 0]
 
@@ -45,7 +55,7 @@ Fresh(fs, r) ==
   /\ faults = fs /\ claimed = {} /\ cur = [w \in Workers |-> Idle] /\ consulted = <<>>
   /\ regions = Blank /\ writes = [c \in Cells |-> 0] /\ failed = <<>> /\ finished = {}
   /\ outcome = "running" /\ round = r
-Init == \E fs \in FaultSets : Fresh(fs, 1)
+Init == \E fs \in FaultSets : \E k \in Kinds : kind = k /\ Fresh(fs, 1)
 
 TaskOf(w) == ChunkTasks(cur[w].chunk)[cur[w].pos]
 
@@ -55,7 +65,7 @@ Take(w) ==
   /\ \E c \in 1..NChunks : c \notin claimed /\ (\A d \in 1..(c - 1) : d \in claimed)   \* FIFO task queue
         /\ claimed' = claimed \cup {c}
         /\ cur' = [cur EXCEPT ![w] = [phase |-> "check", chunk |-> c, pos |-> 1, fills |-> 0]]
-  /\ UNCHANGED <<faults, consulted, regions, writes, failed, finished, outcome, round>>
+  /\ UNCHANGED <<kind, faults, consulted, regions, writes, failed, finished, outcome, round>>
 
 \* The cube wraps every task: a task that starts after a failure has been recorded is skipped, and whatever a
 \* task raises (ordinary Exception or not) is recorded instead of reaching the pool's worker loop.
@@ -67,16 +77,23 @@ Check(w) ==
   /\ outcome = "running" /\ cur[w].phase = "check"
   /\ LET t == TaskOf(w) IN
        /\ consulted' = Append(consulted, t)
-       /\ IF t \in faults
+       /\ IF t \notin faults
+          THEN cur' = [cur EXCEPT ![w].phase = "fill", ![w].fills = 0] /\ UNCHANGED <<failed, finished>>
+          ELSE IF Guarded
           THEN failed' = Append(failed, t) /\ Advance(w)      \* recorded; the worker goes on to its next task
-          ELSE cur' = [cur EXCEPT ![w].phase = "fill", ![w].fills = 0] /\ UNCHANGED <<failed, finished>>
-  /\ UNCHANGED <<faults, claimed, regions, writes, outcome, round>>
+          ELSE CASE kind = "exception" -> /\ failed' = Append(failed, t)           \* the chunk is abandoned and reported
+                                          /\ cur' = [cur EXCEPT ![w] = Idle] /\ finished' = finished \cup {cur[w].chunk}
+                 [] kind = "stop"      -> /\ UNCHANGED failed                       \* the chunk just ends
+                                          /\ cur' = [cur EXCEPT ![w] = Idle] /\ finished' = finished \cup {cur[w].chunk}
+                 [] OTHER              -> /\ UNCHANGED <<failed, finished>>          \* the worker thread dies
+                                          /\ cur' = [cur EXCEPT ![w].phase = "dead"]
+  /\ UNCHANGED <<kind, faults, claimed, regions, writes, outcome, round>>
 
 \* a task that finds a recorded failure when it starts does nothing (the callback is not consulted)
 SkipTask(w) ==
-  /\ outcome = "running" /\ cur[w].phase = "check" /\ failed # <<>>
+  /\ Guarded /\ outcome = "running" /\ cur[w].phase = "check" /\ failed # <<>>
   /\ Advance(w)
-  /\ UNCHANGED <<faults, claimed, consulted, regions, writes, failed, outcome, round>>
+  /\ UNCHANGED <<kind, faults, claimed, consulted, regions, writes, failed, outcome, round>>
 
 Fill(w) ==
   /\ outcome = "running" /\ cur[w].phase = "fill" /\ cur[w].fills < F
@@ -84,51 +101,51 @@ Fill(w) ==
        /\ regions' = [regions EXCEPT ![Addr(t, f)] = Val(t, f)]
        /\ writes' = [writes EXCEPT ![Addr(t, f)] = @ + 1]
        /\ cur' = [cur EXCEPT ![w].fills = f]
-  /\ UNCHANGED <<faults, claimed, consulted, failed, finished, outcome, round>>
+  /\ UNCHANGED <<kind, faults, claimed, consulted, failed, finished, outcome, round>>
 
 EndTask(w) ==
   /\ outcome = "running" /\ cur[w].phase = "fill" /\ cur[w].fills = F
   /\ IF cur[w].pos < Len(ChunkTasks(cur[w].chunk))
      THEN cur' = [cur EXCEPT ![w].phase = "check", ![w].pos = @ + 1] /\ UNCHANGED finished
      ELSE cur' = [cur EXCEPT ![w] = Idle] /\ finished' = finished \cup {cur[w].chunk}
-  /\ UNCHANGED <<faults, claimed, consulted, regions, writes, failed, outcome, round>>
+  /\ UNCHANGED <<kind, faults, claimed, consulted, regions, writes, failed, outcome, round>>
 
 \* map returns (or re-raises the first recorded failure) once every chunk has finished
 MapDone ==
   /\ ~Serial /\ outcome = "running" /\ finished = 1..NChunks
   /\ outcome' = IF failed = <<>> THEN "returned" ELSE "raised"
-  /\ UNCHANGED <<faults, claimed, cur, consulted, regions, writes, failed, finished, round>>
+  /\ UNCHANGED <<kind, faults, claimed, cur, consulted, regions, writes, failed, finished, round>>
 
 \* ---- serial mode: worker 1 walks the tasks in order; a raising callback propagates at once --------
 SerialStart ==
   /\ Serial /\ outcome = "running" /\ cur[1].phase = "idle" /\ claimed = {}
   /\ claimed' = {0}
   /\ cur' = [cur EXCEPT ![1] = [phase |-> "scheck", chunk |-> 0, pos |-> 1, fills |-> 0]]
-  /\ UNCHANGED <<faults, consulted, regions, writes, failed, finished, outcome, round>>
+  /\ UNCHANGED <<kind, faults, consulted, regions, writes, failed, finished, outcome, round>>
 SerialCheck ==
   /\ Serial /\ outcome = "running" /\ cur[1].phase = "scheck"
   /\ LET t == cur[1].pos IN
        /\ consulted' = Append(consulted, t)
        /\ IF t \in faults THEN failed' = <<t>> /\ outcome' = "raised" /\ UNCHANGED cur
                           ELSE cur' = [cur EXCEPT ![1].phase = "sfill", ![1].fills = 0] /\ UNCHANGED <<failed, outcome>>
-  /\ UNCHANGED <<faults, claimed, regions, writes, finished, round>>
+  /\ UNCHANGED <<kind, faults, claimed, regions, writes, finished, round>>
 SerialFill ==
   /\ Serial /\ outcome = "running" /\ cur[1].phase = "sfill" /\ cur[1].fills < F
   /\ LET t == cur[1].pos  f == cur[1].fills + 1 IN
        /\ regions' = [regions EXCEPT ![Addr(t, f)] = Val(t, f)]
        /\ writes' = [writes EXCEPT ![Addr(t, f)] = @ + 1]
        /\ cur' = [cur EXCEPT ![1].fills = f]
-  /\ UNCHANGED <<faults, claimed, consulted, failed, finished, outcome, round>>
+  /\ UNCHANGED <<kind, faults, claimed, consulted, failed, finished, outcome, round>>
 SerialEndTask ==
   /\ Serial /\ outcome = "running" /\ cur[1].phase = "sfill" /\ cur[1].fills = F
   /\ IF cur[1].pos < T THEN cur' = [cur EXCEPT ![1].phase = "scheck", ![1].pos = @ + 1] /\ UNCHANGED outcome
                        ELSE outcome' = "returned" /\ UNCHANGED cur
-  /\ UNCHANGED <<faults, claimed, consulted, regions, writes, failed, finished, round>>
+  /\ UNCHANGED <<kind, faults, claimed, consulted, regions, writes, failed, finished, round>>
 
 \* ---- the same cube and function objects are used again, uninterrupted (regions are per call) ------
 Again ==
   /\ outcome # "running" /\ round = 1
-  /\ faults' = {} /\ claimed' = {} /\ cur' = [w \in Workers |-> Idle] /\ consulted' = <<>>
+  /\ kind' = kind /\ faults' = {} /\ claimed' = {} /\ cur' = [w \in Workers |-> Idle] /\ consulted' = <<>>
   /\ regions' = Blank /\ writes' = [c \in Cells |-> 0] /\ failed' = <<>> /\ finished' = {}
   /\ outcome' = "running" /\ round' = 2
 
@@ -150,4 +167,15 @@ RaisesIffFaultConsulted ==
 ConsultedAtMostOnce == NoDup(consulted)
 SecondRunClean == (round = 2 /\ outcome # "running") => (outcome = "returned" /\ regions = SerialRegions)
 Terminates == <>(round = 2 /\ outcome # "running")
+
+\* ---- what the raw pool does (Guarded = FALSE): why the cube must wrap its tasks (defect F22) -----------------
+Dead == {w \in Workers : cur[w].phase = "dead"}
+RawPoolFacts ==
+  /\ Dead # {} => outcome = "running"                          \* a dead worker's chunk never finishes: map() hangs
+  /\ (kind = "stop" /\ round = 1 /\ outcome # "running" /\ ~Serial) => outcome = "returned"  \* swallowed
+  /\ (kind = "exception") => RaisesIffFaultConsulted           \* ordinary Exceptions were always propagated
+  /\ (faults = {} \/ kind = "exception") => ScheduleIndependent
+\* a state of the raw pool from which it can never return, and a silent loss, are both reachable:
+RawNeverHangs == Dead = {}
+RawNeverSilent == ~(round = 1 /\ outcome = "returned" /\ faults # {})
 =============================================================================
